@@ -158,18 +158,43 @@ def strip_doc(fn: ast.FunctionDef):
     return body
 
 
-def method_of(fn: ast.FunctionDef):
-    """`return bool(<NAME>.<method>(<arg>))` -> (NAME, method)."""
+def method_of(fn: ast.FunctionDef, compiled: set[str]):
+    """Which compiled pattern a validator applies to its argument, and through which `re` method.
+
+    Accepted shapes (anything else is an error): the function contains exactly one call `<NAME>.<method>(<arg>)` on a module-level
+    compiled pattern with the function's first parameter as the only argument, and what it returns is the truthiness of that
+    call: `return bool(X)`, `return X is not None` or `return X != None`, where X is the call itself or a local assigned
+    once from it."""
     body = strip_doc(fn)
-    if len(body) != 1 or not isinstance(body[0], ast.Return):
-        raise Unsupported(f"{fn.name}: body is not a single return")
-    v = body[0].value
-    if not (isinstance(v, ast.Call) and isinstance(v.func, ast.Name) and v.func.id == "bool" and len(v.args) == 1):
-        raise Unsupported(f"{fn.name}: not bool(...)")
-    c = v.args[0]
-    if not (isinstance(c, ast.Call) and isinstance(c.func, ast.Attribute) and isinstance(c.func.value, ast.Name)
-            and len(c.args) == 1 and isinstance(c.args[0], ast.Name) and c.args[0].id == fn.args.args[0].arg and not c.keywords):
-        raise Unsupported(f"{fn.name}: not NAME.method(arg)")
+    arg0 = fn.args.args[0].arg
+    calls = [n for n in ast.walk(fn) if isinstance(n, ast.Call) and isinstance(n.func, ast.Attribute)
+             and isinstance(n.func.value, ast.Name) and n.func.value.id in compiled]
+    if len(calls) != 1:
+        raise Unsupported(f"{fn.name}: expected exactly one call on a compiled pattern, found {len(calls)}")
+    c = calls[0]
+    if not (len(c.args) == 1 and isinstance(c.args[0], ast.Name) and c.args[0].id == arg0 and not c.keywords):
+        raise Unsupported(f"{fn.name}: not NAME.method({arg0})")
+    local = None
+    rest = list(body)
+    if len(rest) == 2 and isinstance(rest[0], ast.Assign) and len(rest[0].targets) == 1 and isinstance(rest[0].targets[0], ast.Name) \
+            and rest[0].value is c:
+        local = rest[0].targets[0].id
+        rest = rest[1:]
+    if len(rest) != 1 or not isinstance(rest[0], ast.Return):
+        raise Unsupported(f"{fn.name}: body is not a single return (optionally after one assignment of the match)")
+
+    def is_x(e):
+        return e is c or (local is not None and isinstance(e, ast.Name) and e.id == local)
+
+    v = rest[0].value
+    ok = False
+    if isinstance(v, ast.Call) and isinstance(v.func, ast.Name) and v.func.id == "bool" and len(v.args) == 1 and not v.keywords and is_x(v.args[0]):
+        ok = True
+    if isinstance(v, ast.Compare) and len(v.ops) == 1 and isinstance(v.ops[0], (ast.IsNot, ast.NotEq)) and is_x(v.left) \
+            and isinstance(v.comparators[0], ast.Constant) and v.comparators[0].value is None:
+        ok = True
+    if not ok:
+        raise Unsupported(f"{fn.name}: the result is not the truthiness of the match")
     return c.func.value.id, c.func.attr
 
 
@@ -183,7 +208,7 @@ def gen_w3c(src: Path, out: list[str]):
     for fname, tag in (("is_w3c_prefix", "ncname"), ("_is_w3c_luid", "luid")):
         if fname not in fns:
             raise Unsupported(f"w3c.{fname} missing")
-        obj, meth = method_of(fns[fname])
+        obj, meth = method_of(fns[fname], {k for k, v in env.items() if isinstance(v, tuple) and v and v[0] == "re.compile"})
         if meth not in METHODS:
             raise Unsupported(f"w3c.{fname}: re method {meth}")
         comp = env.get(obj)
@@ -202,15 +227,14 @@ def gen_discovery(src: Path, out: list[str]):
     if not (isinstance(dd, (tuple, list)) and all(isinstance(x, str) for x in dd)):
         raise Unsupported("discovery.DEFAULT_DELIMITERS")
     out.append("Definition default_delimiters : list str := [" + "; ".join(coq_str(x) for x in dd) + "].")
-    # the special case `uri.startswith(<lit>) and <lit> in uri` of _get_uri_prefix_to_luids (known finding K1)
-    fns = {n.name: n for n in tree.body if isinstance(n, ast.FunctionDef)}
-    fn = fns.get("_get_uri_prefix_to_luids")
-    if fn is None:
+    # the special case `uri.startswith(<lit>) and <lit> in uri` (known finding K1), wherever in the module it is written
+    # (an `if` test, a returned expression of a helper, ...)
+    if "_get_uri_prefix_to_luids" not in {n.name for n in tree.body if isinstance(n, ast.FunctionDef)}:
         raise Unsupported("discovery._get_uri_prefix_to_luids missing")
     special = []
-    for node in ast.walk(fn):
-        if isinstance(node, ast.If) and isinstance(node.test, ast.BoolOp) and isinstance(node.test.op, ast.And) and len(node.test.values) == 2:
-            a, b = node.test.values
+    for node in ast.walk(tree):
+        if isinstance(node, ast.BoolOp) and isinstance(node.op, ast.And) and len(node.values) == 2:
+            a, b = node.values
             if (isinstance(a, ast.Call) and isinstance(a.func, ast.Attribute) and a.func.attr == "startswith" and len(a.args) == 1
                     and isinstance(a.args[0], ast.Constant) and isinstance(b, ast.Compare) and len(b.ops) == 1
                     and isinstance(b.ops[0], ast.In) and isinstance(b.left, ast.Constant)):
